@@ -125,6 +125,7 @@ def run(chk, tier, seed):
     strings += [''.join(t) for t in itertools.product(SMALL, repeat=3)] if tier != 'quick' else [''.join(rnd.choice(SMALL) for _ in range(3)) for _ in range(300)]
     strings += ['c:/a*', '//host/share/a[b', '//?/UNC/h/s/x*', '//?/c:/x|y', 'c:', '//h/s', 'a/./b', './a', '../*', 'a//b/', '/abs/*x', '~user/x', '-a', '!a', 'a\\b', 'a\\\\b', '.\n',
                 '//?/UNC/server/sh*re/file', '//./UNC/se[r]ver/share/f', '//?/GLOBAL/UNC/h/s?/x', '//?/unc/h/s(a)/x', '//?/Unc/h*/s/x',
+                '//?/GLOBAL/UNC/srv[1]/share/file.txt', '//?/GLOBAL/GLOBAL/dev*/x', '//?/GLOBAL/UNC/ser*ver/sh/f', '//a|b/sh*re/x', '//a}b/sh[1]/x', '//a{b/s?/x', '\\\\a}b\\sh[1]\\x', '//h{1,2}/s*/x',
                 # three or more leading separators are NOT a UNC prefix: the metacharacters behind them are ordinary magic
                 '///[a]/x', '///srv*/share?/f', '////h/s*/x', '\\\\\\[a]\\x', '///a/b(c)/d|e',
                 ''.join(rnd.choice(ALPHA) for _ in range(8)), ''.join(rnd.choice(ALPHA) for _ in range(12))]
